@@ -12,7 +12,7 @@ T=$(mktemp -d); trap 'rm -rf "$T"' EXIT
 PK=verif/cmd/verif,github.com/tdewolff/canvas,github.com/tdewolff/canvas/text,github.com/tdewolff/canvas/renderers/pdf,github.com/tdewolff/canvas/renderers/svg,github.com/tdewolff/canvas/renderers/ps,github.com/tdewolff/canvas/renderers/rasterizer
 go build -cover -coverpkg=$PK -o "$T/verif" ./cmd/verif || exit 2
 mkdir -p "$T/cov" "$T/root/evidence" "$T/root/replays" coverage
-cp known_findings.json c03_known_cases.json "$T/root/"
+cp -r known_findings.json c03_known_cases.json known_cases "$T/root/"
 for id in $IDS; do
   GOCOVERDIR="$T/cov" VERIF_ROOT="$T/root" "$T/verif" check $id $TIER > "$T/out_$id.txt" 2>&1
   echo "$id exit=$? $(tail -1 "$T/out_$id.txt" | cut -c1-150)"
